@@ -412,6 +412,12 @@ func verif_Manager_Register(m *Manager, p Plugin) {
 //verif:contract (*~/pkg/plugin/server.httpPlugin).do
 //verif:props C15
 func verif_httpPlugin_do(p *httpPlugin, ctx context.Context, r *Request, res *Response) {
+	// JSON decoding overwrites only the fields the body mentions: a verdict the
+	// plugin did not spell out ("reject", "unchange") stays what the response
+	// held before, so the response must start out empty - an answer without
+	// "unchange" means "use my content" (C15 "see each other's edits"), one
+	// without "reject" means "allowed"
+	verif.Requires(res != nil && !res.Reject && !res.Unchange && res.RejectReason == "", "response_starts_empty")
 	verif.ResetEvents()
 	err := p.do(ctx, r, res)
 	if err == nil {
